@@ -347,6 +347,20 @@ def check_nb(case, stats):
         else:
             if key in nbp:
                 viols.append(dict(assertion="no-pairs-generated-when-not-requested", tags=[], message=f"{a}-{b} present with gen-pairs no | {case}", case=case, detail={}))
+    # symmetric in the pair: the table must not depend on the order in which the atom types are declared (a generated A-B
+    # value computed as f(first declared, second declared) with an asymmetric f shows here; the rule itself is not judged)
+    if case["genpairs"] == "yes" and not viols:
+        text2 = top_text(at[::-1], {}, types, {"bonds": ["1 2 1 0.1 10", "2 3 1 0.1 10"]}, 1, defaults=f"1 {case['comb']} {case['genpairs']} 1.0 1.0", nonbond=nb_lines)
+        try:
+            nbp2 = read_pre(text2).nonbond_params
+        except Exception as exc:  # noqa
+            return [crash_violation(exc, case, assertion="preprocess-does-not-crash")], True
+        for key in sorted(nbp, key=sorted):
+            g1 = (nbp[key]["nb1"], nbp[key]["nb2"])
+            g2 = (nbp2[key]["nb1"], nbp2[key]["nb2"]) if key in nbp2 else None
+            if g2 is None or not all(math.isclose(x, y, rel_tol=1e-12, abs_tol=0.0) for x, y in zip(g1, g2)):
+                viols.append(dict(assertion="pair-parameters-symmetric", tags=["atom-types-declared-in-reverse-order"],
+                                  message=f"{sorted(key)}: {g1} with the atom types declared in one order, {g2} in the reverse order | {case}", case=case, detail={}))
     return viols, bool(case["explicit"])
 
 
